@@ -73,47 +73,12 @@ def check(ctx):
     ctx.rule("R7", "the accessor write behind every direct-write command (user demands, eco switch, units, setpoint) is exact: bit-provenance obligations of C02 on exactly those items' shapes, both writers")
     ctx.rule("R6", "watercare: label -> index via WATERCARE_MODE_STRING.index; exactly one async_set_watercare(new_mode) followed by change_watercare_mode(new_mode)")
 
-    # ---- R1 / R2 switch --------------------------------------------------------------
-    for name, on in (("turn_on", True), ("async_turn_on", True), ("turn_off", False), ("async_turn_off", False)):
-        fi = repo.own_method("GeckoSwitch", name)
-        g = cfg_of(fi)
-        cmds = command_nodes(g)
-        ctx.ob("R2", f"{fi.qual}::two-command-forms", {k for _, k, _ in cmds} == {"press", "write"} and len(cmds) == 2,
-               f"{fi.qual}: expected one keypad press and one direct write, found {[(k, d) for _, k, d in cmds]}", fi.loc)
-        for n, kind, detail in cmds:
-            facts = g.guard_atoms(n)
-            ctx.ob("R1", f"{fi.qual}::{kind}::short-circuit", ("self.is_on", not on) in facts,
-                   f"{fi.qual}: {kind} command (L{n.lineno}) is sent even when the device is already {'on' if on else 'off'} (not guarded by `{'not ' if on else ''}self.is_on`); guards {sorted(facts)}",
-                   loc(fi, n.ast), sample={"rule": "R1", "method": fi.qual, "command": kind, "guards": sorted(map(str, facts))})
-            if kind == "press":
-                ctx.ob("R2", f"{fi.qual}::press::own-keypad-code", detail == "self._keypad_button", f"{fi.qual}: presses `{detail}`, not the device's keypad code", loc(fi, n.ast))
-                ctx.ob("R2", f"{fi.qual}::press::only-with-keypad", ("0 == self._keypad_button", False) in facts, f"{fi.qual}: key press not guarded by `_keypad_button != 0`", loc(fi, n.ast))
-            else:
-                tgt, val = detail
-                ctx.ob("R2", f"{fi.qual}::write::own-accessor", tgt == "self._accessor", f"{fi.qual}: writes `{tgt}`, not the device's own accessor", loc(fi, n.ast))
-                ctx.ob("R2", f"{fi.qual}::write::constant", val == str(on), f"{fi.qual}: writes {val}, expected {on}", loc(fi, n.ast))
-        # mutually exclusive
-        for a, ka, _ in cmds:
-            for b, kb, _ in cmds:
-                if a is not b:
-                    ctx.ob("R2", f"{fi.qual}::{ka}-then-{kb}::exclusive", b not in g.reach_from(a, labels_skip=("exc",)),
-                           f"{fi.qual}: after the {ka} command control can fall through to the {kb} command: two commands for one request", loc(fi, a.ast))
-        # some command on every path past the gate
-        gate = [n for n in g.stmt_nodes() if n.kind == "test" and "is_on" in n.text()]
-        if gate:
-            want = "F" if on else ("T" if not (isinstance(gate[0].ast, ast.UnaryOp)) else "F")
-            # path past the gate = the edge on which the early return is NOT taken
-            past = [m for m, l in g.succ[gate[0]] if not isinstance(m.ast, ast.Return) and l in ("T", "F") and not _leads_only_to_return(g, m)]
-            avoid = [n for n, _, _ in cmds]
-            silent = any(g.exit in g.reach_from(m, avoid=avoid, labels_skip=("exc",)) or m is g.exit for m in past if m not in avoid)
-            ctx.ob("R2", f"{fi.qual}::command-on-every-path", not silent, f"{fi.qual}: a path past the already-on/off test reaches the end without any command", fi.loc)
-    # keypad/accessor provenance in __init__
-    init = repo.own_method("GeckoSwitch", "__init__")
-    t = ast.unparse(init.node)
-    ctx.ob("R2", "GeckoSwitch.__init__::keypad-from-props", "self._keypad_button = props[1]" in t, "keypad code is not props[1] of the DEVICES row", init.loc)
-    ctx.ob("R2", "GeckoSwitch.__init__::accessor-from-props", "self._accessor = self._spa.accessors[props[2]]" in t, "state accessor is not accessors[props[2]]", init.loc)
-    iso = repo.own_method("GeckoSwitch", "is_on")
-    ctx.ob("R1", "GeckoSwitch.is_on::reads-own-state", "self._state_sensor.state" in ast.unparse(iso.node), "is_on does not read the device's state sensor", iso.loc)
+    # ---- R1 / R2 switch: by interpretation on a model spa (vlib/facademodel.py) -------------------
+    # every (keypad code 0 / non-0) x (Bool / Enum state item) x (currently on / off) x (turn_on, turn_off,
+    # async twins): nothing when already there, otherwise exactly one key press with the device's keypad code
+    # or exactly one write of True/False to the device's own state accessor (props[2] of its DEVICES row)
+    from ..facademodel import switch_commands
+    switch_commands(ctx, repo, "R1", "R2")
 
     # ---- R3 siblings --------------------------------------------------------------------
     # Semantic agreement: both twins emit the same set of device effects (key press /
@@ -155,45 +120,63 @@ def check(ctx):
                f"{cname}.{a} and {cname}.{b} do not emit the same device effects under the same conditions: only in {a}: {only_a}; only in {b}: {only_b}", fb.loc,
                sample={"rule": "R3", "pair": f"{cname}.{a}/{b}", "effects": sorted((k, t, x) for k, t, x, f in ea)})
 
-    # ---- R4 write targets ------------------------------------------------------------------
+    # ---- R4 write targets: by interpretation on a model spa ------------------------------------------------
+    # pump: set_mode writes the mode to the matched user-demand item; heater: the target temperature goes to the
+    # SetpointG item, the unit setter writes 'F' for the Fahrenheit aliases and 'C' otherwise to the TempUnits item
+    from ..absint import ClassRef, Interp, PyRaise, Undecided
+    from ..core import AnalysisError as _AE
+    from ..facademodel import Rec, _writes, accessor as _acc, model_facade
+    from .c14 import build_heater
+    gcc = repo.cls("GeckoConstants")
     for nm in ("set_mode", "async_set_mode"):
-        fi = repo.own_method("GeckoPump", nm)
-        t = ast.unparse(fi.node)
-        ok = "self.facade.spa.accessors[self._user_demand['demand']]" in t and ("= mode" in t or "async_set_value(mode)" in t)
-        ctx.ob("R4", f"GeckoPump.{nm}::writes-demand-item", ok, f"GeckoPump.{nm} does not write the mode to accessors[user_demand['demand']]", fi.loc)
-    pinit = repo.own_method("GeckoPump", "__init__")
-    ctx.ob("R4", "GeckoPump.__init__::keeps-demand", "self._user_demand = user_demand" in ast.unparse(pinit.node), "pump does not keep its matched user demand", pinit.loc)
+        rec = Rec()
+        accs = {"StateKey": _acc(rec, "StateKey", "OFF"), "UdDEV": _acc(rec, "UdDEV", "OFF"), "UdOTHER": _acc(rec, "UdOTHER", "OFF")}
+        fac, _spa = model_facade(rec, accs)
+        it = Interp(repo, max_depth=12)
+        try:
+            pump = it.apply(ClassRef(repo.cls("GeckoPump")), [fac, "DEV", ("Pump", 1, "StateKey", "PUMP"), {"demand": "UdDEV", "options": ["OFF", "HI"]}], {})
+            rec.log.clear()
+            before = {k: a.attrs["value"] for k, a in accs.items()}
+            it.steps = 0
+            it.call(repo.method("GeckoPump", nm), pump, ["HI"])
+        except (PyRaise, Undecided) as e:
+            raise _AE(f"GeckoPump.{nm}: {e}")
+        cmds = _writes(rec, accs, before)
+        ctx.ob("R4", f"GeckoPump.{nm}::writes-demand-item", cmds == [("write", "UdDEV", "HI")],
+               f"GeckoPump.{nm}('HI') on a pump matched with demand UdDEV performs {cmds}, expected exactly one write of 'HI' to UdDEV", repo.method("GeckoPump", nm).loc)
+    K = {k: repo.fold(gcc.consts[k], gcc.mod, gcc) for k in ("KEY_TEMP_UNITS", "KEY_SETPOINT_G")}
     for nm in ("set_target_temperature", "async_set_target_temperature"):
-        fi = repo.own_method("GeckoWaterHeater", nm)
-        t = ast.unparse(fi.node)
-        p = fi.node.args.args[1].arg
-        ok = "self._target_temperature_sensor.accessor" in t and (f".value = {p}" in t or f"async_set_value({p})" in t)
-        ctx.ob("R4", f"GeckoWaterHeater.{nm}::writes-setpoint", ok, f"GeckoWaterHeater.{nm} does not write the argument to the SetpointG accessor", fi.loc)
-    hinit = repo.own_method("GeckoWaterHeater", "__init__")
-    ok = False
-    for n in ast.walk(hinit.node):
-        if isinstance(n, ast.Assign) and ast.unparse(n.targets[0]) == "self._target_temperature_sensor" and "KEY_SETPOINT_G" in ast.unparse(n.value):
-            ok = True
-    ctx.ob("R4", "GeckoWaterHeater::target-is-SetpointG", ok, "target temperature sensor is not built on the SetpointG item", hinit.loc)
+        it = Interp(repo, max_depth=12)
+        try:
+            heater, accs, rec = build_heater(repo, it)
+            rec.log.clear()
+            before = {k: a.attrs["value"] for k, a in accs.items()}
+            it.steps = 0
+            it.call(repo.method("GeckoWaterHeater", nm), heater, [37.5])
+        except (PyRaise, Undecided) as e:
+            raise _AE(f"GeckoWaterHeater.{nm}: {e}")
+        cmds = _writes(rec, accs, before)
+        ctx.ob("R4", f"GeckoWaterHeater.{nm}::writes-setpoint", cmds == [("write", K["KEY_SETPOINT_G"], 37.5)],
+               f"GeckoWaterHeater.{nm}(37.5) performs {cmds}, expected exactly one write of 37.5 to the {K['KEY_SETPOINT_G']} item", repo.method("GeckoWaterHeater", nm).loc)
     for nm in ("set_temperature_unit", "async_set_temperature_unit"):
-        fi = repo.own_method("GeckoWaterHeater", nm)
-        g = cfg_of(fi)
-        writes = []
-        for n in g.stmt_nodes():
-            for c in n.calls():
-                if call_name(c) == "async_set_value" and receiver(c) == "self._temperature_unit_accessor":
-                    writes.append((n, repo.try_fold(c.args[0])))
-            if isinstance(n.ast, ast.Assign) and ast.unparse(n.ast.targets[0]) == "self._temperature_unit_accessor.value":
-                writes.append((n, repo.try_fold(n.ast.value)))
-        vals = sorted(v for _, v in writes)
-        ok = vals == ["C", "F"]
-        if ok:
-            for n, v in writes:
-                facts = g.guard_atoms(n)
-                isF = any(p and " in (" in t and "'F'" in t for t, p in facts)
-                notF = any((not p) and " in (" in t and "'F'" in t for t, p in facts)
-                ok = ok and ((v == "F" and isF) or (v == "C" and notF))
-        ctx.ob("R4", f"GeckoWaterHeater.{nm}::F-or-C", ok, f"GeckoWaterHeater.{nm} does not write 'F' for the Fahrenheit aliases and 'C' otherwise (writes {vals})", fi.loc)
+        bad = []
+        for start in ("C", "F"):
+            for arg, want in (("°F", "F"), ("f", "F"), ("F", "F"), ("°C", "C"), ("c", "C"), ("C", "C"), ("K", "C")):
+                it = Interp(repo, max_depth=12)
+                try:
+                    heater, accs, rec = build_heater(repo, it, units=start)
+                    rec.log.clear()
+                    accs[K["KEY_TEMP_UNITS"]].attrs["value"] = "?"  # so that a plain assignment is visible whatever it writes
+                    before = {k: a.attrs["value"] for k, a in accs.items()}
+                    it.steps = 0
+                    it.call(repo.method("GeckoWaterHeater", nm), heater, [arg])
+                except (PyRaise, Undecided) as e:
+                    raise _AE(f"GeckoWaterHeater.{nm}: {e}")
+                cmds = _writes(rec, accs, before)
+                if cmds != [("write", K["KEY_TEMP_UNITS"], want)]:
+                    bad.append((arg, cmds))
+        ctx.ob("R4", f"GeckoWaterHeater.{nm}::F-or-C", not bad,
+               f"GeckoWaterHeater.{nm} does not write 'F' for the Fahrenheit aliases and 'C' otherwise to the unit item: {bad[:3]}", repo.method("GeckoWaterHeater", nm).loc)
 
     # ---- R5 SPACK construction ----------------------------------------------------------------
     def builder_call(fi, builder):
